@@ -54,3 +54,18 @@ Proof.
     + rewrite IH, qmul_assoc, rotq_add, S_INR. f_equal. f_equal. ring.
     + apply unitq_mul; [exact IU|apply rotq_unit].
 Qed.
+
+(* the closed-form step in matrix form:  q (x) rotq(w, dt) = (cos h I + (sin h / h) S) q,  S = dt/2 Omega(w), h = |w| dt/2;
+   this is the form the order-k series step  (ak(h^2) I + bk(h^2) S) q  is compared with in C08_bounds *)
+Lemma closed_decomp dt wx wy wz q : wx*wx+wy*wy+wz*wz <> 0 -> dt <> 0 ->
+  let h := wnorm wx wy wz * dt / 2 in
+  qmul q (rotq wx wy wz dt) = qadd (qscale (cos h) q) (qscale (sin h / h) (m4v (hS dt wx wy wz) q)) /\
+  uu dt wx wy wz = h * h.
+Proof.
+  intros NZ D h. pose proof (wnorm_sq wx wy wz) as SQ.
+  assert (N0 : wnorm wx wy wz <> 0) by (intros Z; rewrite Z in SQ; lra).
+  split.
+  - unfold rotq, hS, Omega4. fold h. set (n := wnorm wx wy wz) in *. set (c := cos h). set (s := sin h).
+    unfold_m4. unfold_q. unfold h. list_eq; field; auto.
+  - unfold uu, h. rewrite <- SQ. field.
+Qed.
